@@ -671,3 +671,184 @@ func ruleHttpReplyOnce(c *Ctx) {
 	c.count("http_handlers", n)
 	c.floor("http handlers", n, 17)
 }
+
+// ruleErrorRendered (C15): in both front ends a kernel error (api.Process returned a non-nil
+// *api.Error) is rendered as an error and nothing else: gRPC returns (nil, status.Error(code(err.Code),
+// err.Error())) on every path where Process failed and returns a nil error only where Process
+// succeeded; HTTP writes (code(err.Code), {"error": err}) on every path where Process failed and
+// writes a resource only where it succeeded. Must-facts over the handler's CFG with the outcome of
+// Process attached to the edges of the `err != nil` test.
+func ruleErrorRendered(c *Ctx) {
+	isProcess := func(info *types.Info, call *ast.CallExpr) bool {
+		fn, ok := calleeOf(info, call).(*types.Func)
+		return ok && fn.Name() == "Process" && isFuncOf(fn, pkgSubApi, "API")
+	}
+	apiErr := func(t types.Type) bool { return isNamed(t, pkgSubApi, "Error") || isNamed(t, pkgTApi, "Error") }
+	nG, nH := 0, 0
+	for _, pp := range []string{pkgGrpc, pkgHttp} {
+		pk := c.P.Pkg(pp)
+		if pk == nil {
+			c.und("error-rendered/"+pp, 0, "package not loaded")
+			continue
+		}
+		info := pk.TypesInfo
+		for _, fd := range allFuncDecls(pk) {
+			if fd.Body == nil || isTestFile(c.P, fd.Pos()) {
+				continue
+			}
+			var proc *ast.CallExpr
+			for _, call := range callsInDeep(fd.Body) {
+				if isProcess(info, call) {
+					proc = call
+				}
+			}
+			if proc == nil {
+				continue
+			}
+			// the error variable Process is assigned to
+			var errObj types.Object
+			ast.Inspect(fd.Body, func(n ast.Node) bool {
+				if as, ok := n.(*ast.AssignStmt); ok && len(as.Rhs) == 1 && ast.Unparen(as.Rhs[0]) == ast.Expr(proc) && len(as.Lhs) == 2 {
+					if id, ok := as.Lhs[1].(*ast.Ident); ok {
+						errObj = info.Defs[id]
+						if errObj == nil {
+							errObj = info.Uses[id]
+						}
+					}
+				}
+				return true
+			})
+			key := "error-rendered/" + pk.Name + "/" + funcName(fd)
+			if errObj == nil {
+				// `return s.api.Process(...)`-style helpers hand both results to their caller
+				continue
+			}
+			g := buildCFG(pk, fd.Body)
+			edge := errEdgeFactsT(info, func(call *ast.CallExpr) string {
+				if isProcess(info, call) {
+					return "process"
+				}
+				return ""
+			}, apiErr)
+			isErrSel := func(e ast.Expr, field string) bool {
+				se, ok := ast.Unparen(e).(*ast.SelectorExpr)
+				return ok && se.Sel.Name == field && isObj(info, se.X, errObj)
+			}
+			codeOfErr := func(e ast.Expr) bool { // s.code(err.Code)
+				call, ok := ast.Unparen(e).(*ast.CallExpr)
+				if !ok || len(call.Args) != 1 {
+					return false
+				}
+				se, ok := ast.Unparen(call.Fun).(*ast.SelectorExpr)
+				return ok && se.Sel.Name == "code" && isErrSel(call.Args[0], "Code")
+			}
+			if pp == pkgGrpc {
+				sig := info.Defs[fd.Name].(*types.Func).Type().(*types.Signature)
+				if sig.Results().Len() != 2 || !isErrorType(sig.Results().At(1).Type()) {
+					continue
+				}
+				nG++
+				rets := mustFacts(g, func(ast.Node) []string { return nil }, edge, func(n ast.Node) bool { _, ok := n.(*ast.ReturnStmt); return ok })
+				ok, where, why := true, fd.Pos(), ""
+				nFail := 0
+				for n, f := range rets {
+					rs := n.(*ast.ReturnStmt)
+					if len(rs.Results) != 2 {
+						continue
+					}
+					_, errNil := info.Uses[identOf(rs.Results[1])].(*types.Nil)
+					if f["failed:process"] {
+						nFail++
+						_, resNil := info.Uses[identOf(rs.Results[0])].(*types.Nil)
+						good := false
+						if call, isCall := ast.Unparen(rs.Results[1]).(*ast.CallExpr); isCall && resNil && len(call.Args) == 2 {
+							if fn, isFn := calleeOf(info, call).(*types.Func); isFn && fn.Pkg() != nil && fn.Pkg().Path() == "google.golang.org/grpc/status" && fn.Name() == "Error" {
+								if codeOfErr(call.Args[0]) {
+									if mc, isM := ast.Unparen(call.Args[1]).(*ast.CallExpr); isM && len(mc.Args) == 0 && isErrSel(mc.Fun, "Error") {
+										good = true
+									}
+								}
+							}
+						}
+						if !good {
+							ok, where, why = false, rs.Pos(), "a kernel error is answered with something other than (nil, status.Error(code(err.Code), err.Error()))"
+						}
+					} else if errNil && !f["ok:process"] {
+						ok, where, why = false, rs.Pos(), "an OK message is returned on a path where api.Process did not succeed"
+					}
+				}
+				if nFail == 0 {
+					ok, why = false, "no return on the path where api.Process failed"
+				}
+				c.check(ok, key, where, "kernel errors ⇒ (nil, mapped gRPC error); OK message only after Process succeeded", "gRPC handler "+funcName(fd)+": "+why+": a non-success kernel outcome would be rendered as success (or dropped), unlike the HTTP front end")
+				continue
+			}
+			// HTTP: the JSON calls
+			hasCtx := false
+			for _, f := range fd.Type.Params.List {
+				if isNamed(info.Types[f.Type].Type, "github.com/gin-gonic/gin", "Context") {
+					hasCtx = true
+				}
+			}
+			if !hasCtx {
+				continue
+			}
+			nH++
+			isJSON := func(n ast.Node) *ast.CallExpr {
+				for _, call := range callsIn(n) {
+					if se, ok := ast.Unparen(call.Fun).(*ast.SelectorExpr); ok && (se.Sel.Name == "JSON" || se.Sel.Name == "Data" || se.Sel.Name == "String" || se.Sel.Name == "Status" || se.Sel.Name == "AbortWithStatus" || se.Sel.Name == "AbortWithStatusJSON") {
+						if isNamed(info.Types[se.X].Type, "github.com/gin-gonic/gin", "Context") {
+							return call
+						}
+					}
+				}
+				return nil
+			}
+			replies := mustFacts(g, func(ast.Node) []string { return nil }, edge, func(n ast.Node) bool { return isJSON(n) != nil })
+			ok, where, why := true, fd.Pos(), ""
+			nFail := 0
+			for n, f := range replies {
+				call := isJSON(n)
+				mentionsRes := false
+				if len(call.Args) >= 1 {
+					ast.Inspect(call.Args[0], func(x ast.Node) bool {
+						if se, isSel := x.(*ast.SelectorExpr); isSel && se.Sel.Name == "Status" {
+							mentionsRes = true
+						}
+						return true
+					})
+				}
+				switch {
+				case f["failed:process"]:
+					nFail++
+					good := false
+					if len(call.Args) == 2 && codeOfErr(call.Args[0]) {
+						if cl, isLit := ast.Unparen(call.Args[1]).(*ast.CompositeLit); isLit && len(cl.Elts) == 1 {
+							if kv, isKV := cl.Elts[0].(*ast.KeyValueExpr); isKV && exprString(kv.Key) == `"error"` && isObj(info, kv.Value, errObj) {
+								good = true
+							}
+						}
+					}
+					if !good {
+						ok, where, why = false, call.Pos(), "a kernel error is answered with something other than (code(err.Code), {\"error\": err})"
+					}
+				case mentionsRes && !f["ok:process"]:
+					ok, where, why = false, call.Pos(), "a resource reply is written on a path where api.Process did not succeed"
+				}
+			}
+			if nFail == 0 {
+				ok, why = false, "no reply on the path where api.Process failed"
+			}
+			c.check(ok, key, where, "kernel errors ⇒ (code(err.Code), {error}); resource only after Process succeeded", "HTTP handler "+funcName(fd)+": "+why)
+		}
+	}
+	c.count("grpc_handlers_error_path", nG)
+	c.count("http_handlers_error_path", nH)
+	c.floor("gRPC handlers with a checked error path", nG, 17)
+	c.floor("HTTP handlers with a checked error path", nH, 17)
+}
+
+func identOf(e ast.Expr) *ast.Ident {
+	id, _ := ast.Unparen(e).(*ast.Ident)
+	return id
+}
